@@ -320,15 +320,49 @@ Definition run (s : spectrum) (ops : list op) : spectrum := fold_left (fun s o =
 Fixpoint trace (s : spectrum) (ops : list op) : list outcome :=
   match ops with [] => [] | o :: t => let r := exec s o in r :: trace (fst r) t end.
 
+(* what an operation must satisfy to be covered: appended spectra have one value per wavelength *)
+Definition op_ok (o : op) : Prop :=
+  match o with OAppend o' => length (wave o') = length (value o') | _ => True end.
+
+(* ---- a session on one live object: the resizing calls above, assignments of new values on the same grid (the
+        [value] setter: np.asarray, no check at all) and the two queries integrate / bin. A query returns a number /
+        bins computed from the object's CURRENT wave and value and leaves the object alone: the model has no other
+        state, so any memo the implementation keeps between calls must be invisible ---- *)
+Inductive call :=
+| CEdit (o : op)
+| CSetValue (v : list Qc)
+| CIntegrate (a b : option Qc) (r : rule)
+| CBin (c : list Qc) (r : rule) (e : endsmode) (pp : bool).
+Inductive answer :=
+| ANone
+| ANum (x : Qc)
+| ABins (b : option (list Qc)).
+Definition set_value (s : spectrum) (v : list Qc) : spectrum := mkSp (wave s) v.
+Definition do_call (s : spectrum) (c : call) : outcome * answer :=
+  match c with
+  | CEdit o => (exec s o, ANone)
+  | CSetValue v => ((set_value s v, None), ANone)
+  | CIntegrate a b r =>
+      match integrate s a b r with Ok x => ((s, None), ANum x) | Err e => ((s, Some e), ANone) end
+  | CBin c r e pp =>
+      match bin s c r e pp with Ok b => ((s, None), ABins b) | Err e => ((s, Some e), ANone) end
+  end.
+Fixpoint session (s : spectrum) (cs : list call) : list (outcome * answer) :=
+  match cs with [] => [] | c :: t => let r := do_call s c in r :: session (fst (fst r)) t end.
+Definition after_session (s : spectrum) (cs : list call) : spectrum :=
+  fold_left (fun s c => fst (fst (do_call s c))) cs s.
+(* what a call must satisfy to be covered, given the object it is applied to *)
+Definition call_ok (s : spectrum) (c : call) : Prop :=
+  match c with CEdit o => op_ok o | CSetValue v => length v = length (wave s) | _ => True end.
+Fixpoint session_ok (s : spectrum) (cs : list call) : Prop :=
+  match cs with [] => True | c :: t => call_ok s c /\ session_ok (fst (fst (do_call s c))) t end.
+
 (* ---- specification-level notions ---- *)
 (* well-formed: positive, strictly increasing grid, one value per wavelength *)
 Fixpoint increasing (w : list Qc) : Prop :=
   match w with a :: ((b :: _) as t) => a < b /\ increasing t | _ => True end.
 Definition wf (s : spectrum) : Prop :=
   increasing (wave s) /\ Forall (fun x => 0 < x) (wave s) /\ length (wave s) = length (value s).
-(* what an operation must satisfy to be covered: appended spectra have one value per wavelength *)
-Definition op_ok (o : op) : Prop :=
-  match o with OAppend o' => length (wave o') = length (value o') | _ => True end.
 (* the values a*v + b*u on a common grid *)
 Definition lincomb (a : Qc) (v : list Qc) (b : Qc) (u : list Qc) : list Qc :=
   map (fun p => a * fst p + b * snd p) (combine v u).
